@@ -679,7 +679,8 @@ impl World {
                 self.known[1] = true;
             } else {
                 self.cluster.set_location(1, "dc1", "r9");
-                for c in self.conns.iter_mut().filter(|c| c.node == 1 && c.alive) {
+                // every connection the old pool ever had (dead ones too: they must not count for the new pool)
+                for c in self.conns.iter_mut().filter(|c| c.node == 1) {
                     c.retiring = true;
                 }
                 self.first_pooled[1] = false;
